@@ -39,6 +39,8 @@ pub mod util;
 pub mod world;
 
 mod can;
+#[cfg(feature = "verif")]
+mod can_verif;
 
 #[macro_use]
 extern crate log;
